@@ -18,6 +18,8 @@ DECIDED_MORE = ('Also: no non-empty part is dropped (yielded before the next rea
 DECIDED = DECIDED + ' ' + DECIDED_MORE
 DECIDED_R6 = ('Round 6: early-stop bound of the read loop; an empty CONTENT_LENGTH is a missing one; the cached body comes from _body_read() on every path, is rewound and is touched through file API only; the one-shot spill flag is found by role.')
 DECIDED = DECIDED + ' ' + DECIDED_R6
+DECIDED_R7 = ('Round 7: request.copy() keeps the memo of the buffered body; nobody closes the cached body, also through its memo key.')
+DECIDED = DECIDED + ' ' + DECIDED_R7
 NOT_DECIDED = 'nothing of the statement beyond the stated assumptions (PEP 3333 read contract; BytesIO/TemporaryFile semantics).'
 ASSUMPTIONS = ['wsgi.input.read(n) returns at most n bytes (PEP 3333)',
                'io.BytesIO / tempfile.TemporaryFile write/getvalue/seek behave as documented']
